@@ -17,20 +17,24 @@ import Koreo.Gen.CelTables
 
 namespace Koreo.C20
 open Koreo.CelAst Koreo.WorkflowPrep
-open Koreo.Gen.CelTables (rules dispatch)
+open Koreo.Gen.CelTables (rules)
 
-/-! ## the tables are the sources' -/
+/-! ## the model agrees with the real code on a probed, complete fact table -/
 
 theorem extraction_ok : Koreo.Gen.CelTables.extractionOk = true := by decide
 
-/-- the extractor's if-chains and the fate of its ten `raise` statements are the model's -/
-theorem dispatch_matches_source : dispatch = modelDispatch := by decide
+/-- the model returns what the real `extract_argument_structure` returned on every probe tree (every node type at
+    every position, every literal token type, every child count, the parsed odd receivers); see `Props/C14` -/
+theorem extractor_probes_match_source :
+    Koreo.Gen.CelTables.probes.all (fun p => probeAgrees p.1 p.2) = true := by decide +kernel
 
-theorem steps_pattern_matches_source : Koreo.Gen.CelTables.stepsPattern = stepsPatternSource := by decide
+theorem probes_cover_every_position :
+    probePositions.all (fun pos => allKinds.all fun k => Koreo.Gen.CelTables.probeCoverage.contains (pos, k)) = true := by
+  decide +kernel
 
-/-- For every position the extractor inspects, every node kind celpy's grammar admits there is
-    handled or skipped; the children it indexes exist.  Decided over the regenerated tables. -/
-theorem dispatch_complete : DispatchComplete rules dispatch = true := by decide
+/-- For every position the extractor inspects, every node kind celpy's grammar (regenerated) admits there is
+    handled or skipped by the model's dispatch; the children it indexes exist. -/
+theorem dispatch_complete : DispatchComplete rules modelDispatch = true := by decide
 
 /-! ## the reference analysis is total on everything the grammar admits -/
 
@@ -44,9 +48,8 @@ theorem extract_total {g : Grammar} {d : Dispatch} {t : Cel}
 
 /-- …in particular `extract_argument_structure` of the current source on every tree of the
     current celpy grammar -/
-theorem extract_total_current {t : Cel} (ht : GrammarTree rules t) : ∃ ks, extract t = .ok ks := by
-  have := extract_total ht dispatch_complete
-  rwa [dispatch_matches_source] at this
+theorem extract_total_current {t : Cel} (ht : GrammarTree rules t) : ∃ ks, extract t = .ok ks :=
+  extract_total ht dispatch_complete
 
 /-- every subtree of a grammatical tree is grammatical, so the claim holds for each expression
     nested in a definition's expression as well -/
@@ -97,10 +100,11 @@ theorem step_deps_are_names (keys : List String) :
 
 /-! ## the optional group of `INPUTS_NAME_PATTERN`: a `None` name is reported, never raised -/
 
-theorem inputs_pattern_matches_source : Koreo.Gen.CelTables.inputsPattern = inputsPatternSource := by decide
-
-/-- `_prepare_overlays` formats each missing name with an f-string and does not sort the set -/
-theorem missing_join_style_matches_source : Koreo.Gen.CelTables.missingJoinStyle = modelJoinStyle := by decide
+/-- for every probed pair (keys of a cached ValueFunction, inputs an `overlayRef` provides) the real
+    `_prepare_overlays` reported exactly the missing names the model computes — `None` names included — and did
+    not raise: ties `inputsMatch`, `missingInputs` and the way the message is built to the source by behaviour -/
+theorem overlay_inputs_probes_match_source :
+    Koreo.Gen.CelTables.overlayProbes.all (fun p => overlayProbeAgrees p.1 p.2.1 p.2.2) = true := by decide +kernel
 
 /-- identifiers that merely start with `inputs` (and `inputs[".x"]`) match the pattern without a name -/
 theorem inputs_name_can_be_none :
@@ -136,13 +140,14 @@ theorem sorted_or_raw_join_would_raise :
 
 /-! ## the schema gate comes first -/
 
-/-- in all five `prepare_*` nothing but logging / plain assignments precedes
-    `if error := schema.validate(...): return PermFail(...)` -/
-theorem schema_gate_first_in_source :
-    Koreo.Gen.CelTables.gates.map (·.1) =
-      ["prepare_value_function", "prepare_resource_function", "prepare_resource_template",
-       "prepare_workflow", "prepare_function_test"] ∧
-    Koreo.Gen.CelTables.gates.all (·.2) = true := by decide
+/-- probed: three schema-violating specs of each of the five kinds were answered with `PermFail` while neither
+    `celpy.Environment.compile` nor a cache lookup had been called -/
+theorem schema_gate_first_probed :
+    Koreo.Gen.CelTables.gateProbes.map (·.1) =
+      ["ValueFunction", "ValueFunction", "ValueFunction", "ResourceFunction", "ResourceFunction", "ResourceFunction",
+       "ResourceTemplate", "ResourceTemplate", "ResourceTemplate", "Workflow", "Workflow", "Workflow",
+       "FunctionTest", "FunctionTest", "FunctionTest"] ∧
+    Koreo.Gen.CelTables.gateProbes.all (·.2) = true := by decide
 
 /-- a spec that violates the schema is answered with `PermFail` and nothing was compiled or
     looked up: validation is the only thing that happened -/
